@@ -6,6 +6,7 @@ from . import _repl
 
 META = {
     'property_id': 'C04',
+    'confirm_by_replay': True,   # bin/check re-executes the stimulus of every violation before it is reported
     'level': 'model_checking',
     'technique': 'TLA+ spec (Replication.tla) with the ack rules as action property C04_AcksOK, checked exhaustively by TLC; '
                  'TLC behaviours with mixed ack policies replayed on three real servers (replica kit) and on a '
